@@ -93,10 +93,7 @@ fn test_strategy() -> BoxedStrategy<CramTest> {
         vec((any::<u16>(), proptest::sample::select(COMMENTS.to_vec()).prop_map(String::from)), 0..2),
         proptest::bool::weighted(0.7),
     )
-        .prop_map(|(c0, cont, mut body, exit, comments, with_comments)| {
-            if body.first().map(|l| l.starts_with("> ")).unwrap_or(false) {
-                body[0] = "first".into();
-            }
+        .prop_map(|(c0, cont, body, exit, comments, with_comments)| {
             let mut cmd = vec![c0.to_string()];
             cmd.extend(cont);
             CramTest {
@@ -171,6 +168,13 @@ pub fn render(doc: &CramDoc) -> (String, Vec<ExpectedCram>, bool) {
                     let at = pick_idx(pos, body.len() + 1);
                     body.insert(at, (1, format!("[{code}]")));
                     exit_code = Some(code as i32);
+                }
+                // the line directly after the command must not read as a continuation of the
+                // command (after an exit code line a `> x` line is an expectation again)
+                if let Some(first) = body.first_mut() {
+                    if first.0 == 0 && first.1.starts_with("> ") {
+                        first.1 = "first".into();
+                    }
                 }
                 for (pos, c) in &t.comments {
                     let at = pick_idx(*pos, body.len() + 1);
@@ -299,8 +303,12 @@ const SOUP: &[&str] = &[
 ];
 
 fn check_soup(c: &SoupCase) -> V {
-    let text = c.lines.join("\n");
-    let v = V::pass().nt(c.lines.len() >= 3);
+    check_soup_lines(&c.lines)
+}
+
+pub fn check_soup_lines(lines_in: &[String]) -> V {
+    let text = lines_in.join("\n");
+    let v = V::pass().nt(lines_in.len() >= 3);
     match cram_parse(&text) {
         Err(p) => V::fail(format!("parser crashed: {p}\ndocument:\n{text}")),
         Ok(Err(_)) => v.label("rejected"),
